@@ -474,13 +474,13 @@ func c08Stale(c *Ctx) {
 func c08Evict(c *Ctx, deleters map[string]bool) {
 	const rule = "EVICT"
 	allowed := map[string]string{
-		"DnsController.evictDnsRespCacheIfSame": "the eviction primitive (CompareAndDelete + side effects)",
-		"DnsController.RemoveDnsRespCache":      "explicit removal",
+		"DnsController.evictDnsRespCacheIfSame":  "the eviction primitive (CompareAndDelete + side effects)",
+		"DnsController.RemoveDnsRespCache":       "explicit removal",
 		"DnsController.RemoveDnsRespCacheFamily": "reject routing drops the family",
-		"DnsController.evictExpiredDnsCache":    "janitor drops entries of a foreign type",
-		"DnsController.evictLRUIfFull":          "LRU pass",
-		"DnsController.RestoreReloadCache":      "reload restore",
-		"DnsController.Close":                   "shutdown",
+		"DnsController.evictExpiredDnsCache":     "janitor drops entries of a foreign type",
+		"DnsController.evictLRUIfFull":           "LRU pass",
+		"DnsController.RestoreReloadCache":       "reload restore",
+		"DnsController.Close":                    "shutdown",
 	}
 	var ds []string
 	for d := range deleters {
